@@ -103,8 +103,9 @@ GetsOK(r, s) == /\ Usable(s) /\ Len(r.g) = s.np * s.nd /\ r.gOutside = 0 /\ r.gO
                 /\ (AttReported(r) => /\ Len(r.ga) = s.np * s.nd
                                       /\ \A i \in 1..Len(r.ga) : EntryOK(r.ga[i], s.useCache, IF s.useCache THEN s.attC.ent[i] ELSE Empty, AttNow(s)))
 Touched(r) == { i \in 1..Len(r.g) : r.g[i] # 0 }
-\* without a read hook for the attenuation cache every entry is assumed filled by a computation
-TouchedAtt(r, s) == IF AttReported(r) THEN { i \in 1..Len(r.ga) : r.ga[i] # 0 } ELSE Entries(s)
+\* every read of the attenuation cache is reported (if the library has the call-out at all): no report,
+\* no entry filled.  Without the call-out the model's attenuation-cache content is never consulted.
+TouchedAtt(r, s) == IF AttReported(r) THEN { i \in 1..Len(r.ga) : r.ga[i] # 0 } ELSE {}
 
 (* ------------------------------ one line -------------------------------- *)
 \* result: [ok, cls, s (object state), i (object ids), memo, cnt]
